@@ -186,6 +186,7 @@ class World:
         self.kind = []          # 'plain' | 'proxy' | 'view' | 'flowproxy' | 'copy'
         self.last_mut = ['-']
         self.proxied = set()    # object ids that have a proxy
+        self.snaps = {}         # object id -> StreamData from get_data()
 
     def oid(self, obj):
         for i, o in enumerate(self.objs):
@@ -370,6 +371,29 @@ def run_ops(ops):
                         d = s.imol.data; j = int(what); n = d.shape[-1]
                         if d.ndim == 1: d[j % n] = d[j % n] * (1 + rel)
                         else: d[(j // n) % d.shape[0], j % n] = d[(j // n) % d.shape[0], j % n] * (1 + rel)
+                elif op == 'snap':
+                    # get_data(): a snapshot of flows, phases, T, P (not a mutation; the recorder sees nothing)
+                    w.snaps[o] = s.get_data()
+                    _REC = None
+                    continue
+                elif op == 'restore':
+                    if o not in w.snaps:
+                        _REC = None
+                        continue
+                    s.set_data(w.snaps[o])
+                elif op == 'temporary':
+                    # `with s.temporary(T=…)`: read a property inside, state restored on exit
+                    with s.temporary(T=float(t[2])):
+                        getattr(s, t[3])
+                elif op == 'unitflow':
+                    # flows that sum to exactly 1 kmol/hr (composition == flows), then an in-place composition edit
+                    d = s.imol.data
+                    if d.ndim != 1:
+                        _REC = None
+                        continue
+                    a_, b_ = float(t[2]), 1.0 - float(t[2])
+                    for j in range(d.shape[-1]): d[j] = 0.
+                    d[0] = a_; d[1] = b_
                 elif op == 'copylike': s.copy_like(w.objs[int(t[2])])
                 elif op == 'copyflow': s.copy_flow(w.objs[int(t[2])])
                 elif op == 'copytc': s.copy_thermal_condition(w.objs[int(t[2])])
@@ -510,6 +534,21 @@ def gen_case(rng, length):
         elif r < 0.68:
             what = rng.choice(['T', 'T', 'P', str(rng.randrange(12)), str(rng.randrange(12))])
             ops.append(f'nudge {o} {what} {rng.choice([1e-6, 1e-3, -1e-4, 1e-9, 1e-12]) if what == "T" else rng.choice([1e-9, 1e-6, -1e-7, 1e-12])}')
+        elif r < 0.69 and rng.random() < 0.5:
+            k = rng.random()
+            if k < 0.35:
+                # snapshot, move away, read there, restore, read again (the memo must not travel with the snapshot)
+                at = rng.choice(ATTRS_MULTI if kinds[o] == 'multi' else ATTRS_SINGLE)
+                ops.append(f'read {o} {at}'); ops.append(f'snap {o}')
+                ops.append(rng.choice([f'setT {o} {rng.choice(TS)}', f'scale {o} 2', f'setflow {o} {rng.randrange(12)} {rng.choice([0, 1, 4])}', f'setP {o} {rng.choice(PS)}']))
+                ops.append(f'read {o} {at}'); ops.append(f'restore {o}'); ops.append(f'read {o} {at}'); last_read = (o, at)
+            elif k < 0.55:
+                at = rng.choice(ATTRS_SINGLE)
+                ops.append(f'read {o} {at}'); ops.append(f'temporary {o} {rng.choice(TS)} {at}'); ops.append(f'read {o} {at}'); last_read = (o, at)
+            else:
+                at = rng.choice(ATTRS_SINGLE)
+                ops.append(f'unitflow {o} {rng.choice([0.5, 0.25, 0.75])}'); ops.append(f'read {o} {at}')
+                ops.append(f'unitflow {o} {rng.choice([0.25, 0.75, 0.125])}'); ops.append(f'read {o} {at}'); last_read = (o, at)
         elif r < 0.70: ops.append(f'setflowkey {o} {rng.choice(["Water", "Ethanol", "Methanol"])} {rng.choice([0, 1.5, 6])} {rng.randrange(3)}')
         elif r < 0.71:
             k = rng.random()
